@@ -238,3 +238,11 @@ RULES = [
     ("C09.d", "keyed actions delegate to and propagate their key", rule_d),
     ("C09.e", "returned key and embedded key share one flag", rule_e),
 ]
+
+
+def rule_inventory(ctx):
+    from . import inventory
+    inventory.check(ctx, ['sched-queue-pull', 'sched-queue-insert'])
+
+
+RULES.append(("C09.g", "state-mutation inventory: no new site that changes the content of the state this property rests on", rule_inventory))
